@@ -182,6 +182,12 @@ def c14LineViolation (input : Bytes) (i : Impl) : Option String :=
           | some t => let y := Time.year t; 0 ≤ y && y ≤ 9999 && t.off % 60 == 0 && t.off.natAbs < 86400
           | none => false)
         | _ => false) && !inMs.toList.isEmpty then some "explicit-offset-string-rejected"
+    -- "an integer is read as Unix seconds": a line whose members are all integers 0 .. 253402214400 is not rejected
+    else if okIn && !inMs.toList.isEmpty && inMs.toList.all (fun kv => match kv.2 with
+        | .num s => (match IntText.parseInt0 s 64 with
+          | some n => s == IntText.formatInt n && 0 ≤ n && n ≤ 253402214400
+          | none => false)
+        | _ => false) then some "integer-timestamp-rejected"
     else none
   else
     match i.bytes.reverse with
